@@ -247,6 +247,70 @@ func runC18(c *Ctx) {
 		}
 	}
 
+	// one AVP per value: once the value dispatch (slices, pointers) is done and the data type is being
+	// switched on, every successful return hands back the list with an AVP appended — a value that produces no
+	// AVP (e.g. an empty nested struct dropped instead of an empty Grouped AVP) shifts or loses elements
+	{
+		key := fname(mf) + ":one-avp-per-value"
+		var sw *ssa.BasicBlock
+		flow.Instrs(mf, func(in ssa.Instruction) {
+			bo, ok := in.(*ssa.BinOp)
+			if !ok || bo.Op != token.EQL || flow.Peel(bo.X) != flow.Peel(tag) {
+				return
+			}
+			if _, isK := bo.Y.(*ssa.Const); !isK {
+				return
+			}
+			if sw == nil || bo.Block().Dominates(sw) {
+				sw = bo.Block()
+			}
+		})
+		li := -1
+		for i := 0; i < mf.Signature.Results().Len(); i++ {
+			if isAVPSlice(mf.Signature.Results().At(i).Type()) {
+				li = i
+			}
+		}
+		if sw == nil || li < 0 {
+			r.Undecided("R2", key, c.fpos(mf), "cannot find the data-type switch / the AVP list result of the marshal function")
+		} else {
+			var bad ssa.Instruction
+			flow.Instrs(mf, func(in ssa.Instruction) {
+				ret, ok := in.(*ssa.Return)
+				if !ok || bad != nil || !sw.Dominates(ret.Block()) || !mayReturnNilError(ret) {
+					return
+				}
+				// the error may come first or last
+				ev := ret.Results[0]
+				if !isErrorType(ev.Type()) {
+					ev = ret.Results[len(ret.Results)-1]
+				}
+				if !flow.IsNilConst(ev) {
+					definitely := true
+					for _, s := range flow.SpillSources(ev) {
+						if !flow.IsNilConst(s) {
+							definitely = false
+						}
+					}
+					if !definitely {
+						return // propagates a callee's verdict
+					}
+				}
+				for _, src := range flow.SpillSources(ret.Results[li]) {
+					call, isCall := src.(*ssa.Call)
+					if !isCall || !isBuiltinCall(call, "append") {
+						bad = ret
+					}
+				}
+			})
+			if bad != nil {
+				r.Fail("R2", key, c.pos(bad), "after the data type was determined a success return hands back the AVP list without an AVP appended: a value (e.g. a nested struct whose members are all empty) produces no AVP at all")
+			} else {
+				r.Ok("R2", key, c.pos(sw.Instrs[0]), "every success return behind the data-type switch returns append(list, avp)")
+			}
+		}
+	}
+
 	c.c18Unmarshal()
 	c.c18NoSharedState()
 
